@@ -12,21 +12,21 @@ CLAIMS = {
          "k<=3 insertions, names from a concrete colliding pool, L<=2..6; longer histories and free-form names are outside."),
  "C02": ("Writer -> parser round trips of the real lexers/parsers (through bufio) with every residue a symbolic byte of the format's alphabet, lengths straddling the wrap widths; Phylip multi-alignment streams and format auto-detection.",
          "n<=2 rows (3 thorough), L from a list around 10/50/60/80; .gz/.xz files and the file layer are not encoded (not applicable part)."),
- "C03": ("Every single-byte mutation (symbolic byte 0..127 at every position), every truncation, every line deletion/duplication of valid template files, short fully symbolic inputs and boundary header numerals are pushed through the real parsers; termination is checked by a step budget whose overruns are replayed natively under a watchdog, panics are found as engine events, success is checked for well-formedness.",
+ "C03": ("Every single-byte mutation (symbolic byte 0..127 at every position), every truncation, every line deletion/duplication of valid template files, short fully symbolic inputs and boundary header numerals are pushed through the real parsers; termination is checked by a step budget whose overruns are replayed natively under a watchdog, panics are found as engine events, success is checked for well-formedness and, for Phylip, against the counts declared in the header of the very input.",
          "templates <= 160 bytes, free inputs <= 3..4 bytes, one mutation at a time, bytes < 0x80; a message-bearing process exit (io.ExitWithMessage) counts as an explicit error."),
- "C04": ("Site extraction/coordinate functions are executed with all integer arguments unconstrained 64-bit symbolic values and symbolic residues; results are compared with naive definitions, and the re-assembly identities are asserted.",
+ "C04": ("Site extraction/coordinate functions are executed with all integer arguments unconstrained 64-bit symbolic values and symbolic residues; results are compared with naive definitions, and the re-assembly identities are asserted; partition files are parsed from text with symbolic digits and compared with their intervals applied as written.",
          "n<=3 rows, L<=4 columns (6 thorough)."),
  "C05": ("Codon translation with symbolic codon bytes against NCBI tables transcribed independently (exhaustive over 256^3 byte triples in the thorough tier through the solver), frames/lengths, CodonAlign and TranslateByReference relations.",
          "sequence-level harnesses enumerate IUPAC classes concretely with symbolic case; L<=8; 3 genetic codes."),
- "C06": ("Reverse complement, case folding and un-aligning executed with all residues symbolic; involution, frame conditions and an independent bit-mask complement oracle.",
+ "C06": ("Reverse complement, case folding and un-aligning executed with all residues symbolic; involution, frame conditions and an independent bit-mask complement oracle; named subsets in every order with unknown names at every position.",
          "n<=3 rows, L<=5 (7 thorough)."),
  "C07": ("Pairwise counters against naive per-site definitions (symbolic codes, sites, weights); each estimator against its published closed form with log/pow as uninterpreted functions (proportions symbolic through symbolic weights, parameters at rational sample points); base-frequency estimation; matrix assembly.",
          "floats are exact extended reals (IEEE rounding outside the claim); parameters at sample points; L<=3..4 sites."),
- "C08": ("Relational harnesses (two executions in one query) for column permutation, replication/weights, reverse complement and row permutation; DistMatrix explored over all interleavings at synchronisation granularity within a preemption bound, with happens-before race detection, deadlock detection and comparison with the expected matrix.",
+ "C08": ("Relational harnesses (two executions in one query) for column permutation, replication/weights, reverse complement and row permutation; DistMatrix explored over all interleavings at synchronisation granularity within a preemption bound, with happens-before race detection, deadlock detection and comparison with the expected matrix; a 15-row run (105 pairs, more than the 100-slot pair channel buffers) under the default schedule with and without a failing evaluation.",
          "3 rows, <=2 workers, preemption bound 1 (quick) / 2 (thorough); races are confirmed natively under Go's race detector."),
- "C09": ("Smith-Waterman fill and trace-back executed with symbolic sequences and symbolic dyadic scoring parameters; validity, re-scoring and optimality against an independent Gotoh dynamic program (itself checked against explicit enumeration for lengths <= 2).",
+ "C09": ("Smith-Waterman fill and trace-back executed with symbolic sequences and symbolic dyadic scoring parameters; validity, re-scoring and optimality against an independent Gotoh dynamic program (itself checked against explicit enumeration for lengths <= 2); the same for an arbitrary substitution matrix (every residue pair an independent symbolic score).",
          "lengths <= 3 (4 thorough), scores multiples of 1/2 in [-8,8], DNAfull/BLOSUM62 on 5-letter subsets."),
- "C10": ("Every randomised operation is executed once with math/rand replaced by nondeterministic stubs constrained only by the documented contract, so each assertion is proved for every outcome of the generator; support claims are reachability queries; determinism given the draws is checked with map-order exploration.",
+ "C10": ("Every randomised operation is executed once with math/rand replaced by nondeterministic stubs constrained only by the documented contract, so each assertion is proved for every outcome of the generator; support claims are existential queries (an outcome that no path of an exhaustive exploration produces is a violation, confirmed by 20000 native runs); replay from the seed is modelled by re-delivering the draws of the first run to a second run (verifRandMark/verifRandRewind) under every map iteration order.",
          "n<=3, L<=4; that math/rand maps a seed to a fixed stream is trusted (standard library)."),
  "C12": ("Cleaning functions against an integer-arithmetic oracle of the cutoff rule with exact dyadic cutoffs, all option combinations, both alphabets; ends mode, kept/removed partition and result content.",
          "n<=3, L<=3, residues from the critical symbol set, cutoffs k/8."),
@@ -36,20 +36,21 @@ CLAIMS = {
          "n<=3..4, L<=2; table-indexed statistics use enumerated contents."),
  "C15": ("Mask/MaskOccurences/MaskUnique against the per-cell selection rule with unconstrained window arguments, all replacement modes and protection flags; frame condition on every other cell.",
          "n<=3, L<=2..3."),
- "C16": ("Phase fan-out (real aligner, two short sequences, 2 workers) explored over interleavings within a delay bound, with race/deadlock detection and comparison with the sequential per-sequence computation; framing relations of the per-sequence aligners on mutated ORF copies with symbolic bases; longest-ORF search through the interpreted regexp engine on symbolic sequences.",
+ "C16": ("Phase fan-out (real aligner, two short sequences, 2 workers) explored over interleavings within a delay bound, with race/deadlock detection and comparison with the sequential per-sequence computation; framing relations of the per-sequence aligners on mutated ORF copies with symbolic bases; longest-ORF search through the interpreted regexp engine on symbolic sequences; 1..5 workers for 2 sequences under the default schedule; phasing without reference on inputs holding any IUPAC code (U included) leaves them unmodified.",
          "delay bound 2 (3 thorough); ORF ATGGAA with one symbolic substitution and at most one symbolic flank base; sequences of 6..7 (8..9 thorough) symbolic bases for the ORF search."),
- "C17": ("PARTIAL: only what does not depend on the likelihood optimiser is decided: JC69 start values and site selection against the published formula, the zero matrix for alignments without unambiguous difference, and symmetry / zero diagonal / range [0,20] of MLDist on pairs that do not reach the optimiser. The core statement (the reported distance maximises the likelihood) depends on Brent iteration and gonum's LAPACK eigen-solver, which cannot be encoded: that part is not applicable and is NOT claimed.",
+ "C17": ("PARTIAL: only what does not depend on the likelihood optimiser is decided: JC69 start values and site selection against the published formula, the zero matrix for alignments without unambiguous difference, symmetry / zero diagonal / range [0,20] of MLDist on pairs that do not reach the optimiser, and the empirical amino-acid frequencies against their definition (independent of row/column order). The core statement (the reported distance maximises the likelihood) depends on Brent iteration and gonum's LAPACK eigen-solver, which cannot be encoded: that part is not applicable and is NOT claimed.",
          "n<=3 rows, L<=2 columns, residues from {A,R,N,-,X,*,B}; one known finding (C17-mldist-minus-one)."),
  "C18": ("PARTIAL: closed-form eigen systems (JC, K2P with sample-point and symbolic kappa, F84) and the generic P(t) assembly (stub model, positivity floor) are decided symbolically: L*R=I, R diag(val) L equals the textbook rate matrix, rows of R diag(e) L sum to 1 for symbolic t, detailed balance, P(0)=I, stationary limit, semigroup law, analytic Pij equals the eigen form; inputs of the 7 protein models. P(t) of F81, TN93, GTR and the protein models goes through gonum's LAPACK eigen-solver, which cannot be encoded: not applicable and NOT claimed; entries in [0,1] only for JC.",
          "t symbolic in [1e-8,100] and t=0; parameters at rational sample points; comparisons within 1e-9."),
- "C19": ("Snapshot-call-snapshot for every listed query/copy operation with symbolic residues, and independence of copies under symbolic writes to the copy and to the original.",
+ "C19": ("Snapshot-call-snapshot for every listed query/copy operation with symbolic residues, independence of copies under symbolic writes to the copy and to the original, and a white-box inspection of the object graph of every copy (no shared sequence object or residue cell, name index pointing to own objects); the engine allocates slice capacities as the gc runtime of the pinned toolchain does (conformance harness).",
          "n<=3, L<=4."),
  "C20": ("PARTIAL: Dirichlet, Dirichlet1, the gamma sampler and the weight builders are decided for every outcome of the random draws (the generator is a nondeterministic stub): sums to the requested total, components positive and finite, one weight per site summing to L, invalid parameters rejected; IncompleteGamma domain values. Discrete-gamma rate categories need gonum's gamma quantile and the incomplete-gamma series needs unbounded floating-point iteration: not applicable and NOT claimed.",
          "n=3,4 (L=3,4); rejection loops cut after the number of draws stated per harness (maxrand); one known finding (C20-gamma-returns-zero)."),
 }
 
 # filled from the current state of the work: properties with a registered check
-REGISTERED = sys.argv[1].split(",") if len(sys.argv) > 1 and sys.argv[1] else []
+ALL = "C01,C02,C03,C04,C05,C06,C07,C08,C09,C10,C12,C13,C14,C15,C16,C17,C18,C19,C20"
+REGISTERED = (sys.argv[1] if len(sys.argv) > 1 and sys.argv[1] else ALL).split(",")  # default: every claimed property
 NA_REASON = {
  "C11": "whole-process property (two executions of the built binary across the OS boundary, cobra/pflag, files, GOMAXPROCS): no bounded symbolic encoding; its in-process kernels are decided under C02, C08, C10, C14, C16 (DESIGN.md C11)",
 }
